@@ -199,6 +199,25 @@ def gen_units(pyplate):
                 r = Sym.lift(r)
                 cell = f"CVal {qlit(r.coef)} {' '.join('(%d)' % e for e in r.exps)}"
             rows.append(f"(({kind}, {pc1}, {bc1}, {pc2}, {bc2}), {cell})")
+    # ---- convert_to_storage / convert_from_storage under every storage configuration
+    from pyplate.pyplate import config
+    saved = (config.volume_storage_unit, config.moles_storage_unit)
+    srows = []
+    try:
+        for (cc, cp) in PREFIXES:
+            config.volume_storage_unit, config.moles_storage_unit = cp + 'L', cp + 'mol'
+            for to in (True, False):
+                fn = Unit.convert_to_storage if to else Unit.convert_from_storage
+                for (pc, pp), (bc, bb) in itertools.product(PREFIXES, [b for b in BASES if b[0] in ('BL', 'BMol')]):
+                    try:
+                        r = Sym.lift(fn(var(0), pp + bb))
+                    except Unsupported:
+                        raise
+                    except Exception as e:
+                        raise Unsupported(f'{fn.__name__}(q, {pp + bb!r}) under storage prefix {cp!r} raised {type(e).__name__}: {e}')
+                    srows.append(f"(({'true' if to else 'false'}, {cc}, {pc}, {bc}), CVal {qlit(r.coef)} {' '.join('(%d)' % e for e in r.exps)})")
+    finally:
+        config.volume_storage_unit, config.moles_storage_unit = saved
     out = ["(* GENERATED by translator/symex.py by symbolic execution of /repo's Unit.convert_from and "
            "Unit.convert_prefix_to_multiplier -- do not edit *)",
            "Require Import Base Units GenBase.", "Open Scope string_scope.",
@@ -207,7 +226,11 @@ def gen_units(pyplate):
            "Definition sym_cells : list ((kind * Units.prefix * base * Units.prefix * base) * cell) := ["]
     out.append(";\n".join(rows))
     out.append("].")
-    return "\n".join(out) + "\n", {"prefixes": len(table), "prefix_candidates": len(cands), "cells": len(rows)}
+    out.append("(* (to-storage?, storage prefix, prefix, base) -> outcome of convert_to_storage / convert_from_storage *)")
+    out.append("Definition sym_storage : list ((bool * Units.prefix * Units.prefix * base) * cell) := [")
+    out.append(";\n".join(srows))
+    out.append("].")
+    return "\n".join(out) + "\n", {"prefixes": len(table), "prefix_candidates": len(cands), "cells": len(rows), "storage_cells": len(srows)}
 
 
 # ------------------------------------------------------------------ recipe lifecycle guards, by probing
